@@ -132,7 +132,11 @@ def gen_plan(rng, tier, idx, opts):
             if init == "fix":
                 ops.append({"op": "set_precoders", "how": "F", "seed": s(), "P": None})
             ops.append({"op": "solve", "P": gen_P(rng, K), "monitor": rng.random() < 0.6})
-        elif r < 0.81:
+        elif r < 0.84 and kind != "closed" and init not in ("fix",):
+            # the stream-variation drivers of the library run their own history of solve / clear / set_precoders /
+            # set_receive_filters on the SAME solver object
+            ops.append({"op": "stream_search", "how": rng.choice(["greedy", "greedy", "brute"]), "P": gen_P(rng, K)})
+        elif r < 0.87:
             ops.append({"op": "noise", "v": rng.choice([None, 1e-3, 0.1, 1.0]) if kind not in ("mmse", "maxsinr") else rng.choice([1e-3, 0.1, 1.0])})
         else:
             ops.append({"op": "read", "what": rng.sample(["F", "full_F", "W", "W_H", "full_W_H", "full_W", "Ns", "P", "cost"], rng.randint(1, 4))})
@@ -317,6 +321,26 @@ def execute(plan):
                             break
                     if costs:
                         bump(res["probes"], "iterations_monitored", len(costs))
+                elif o == "stream_search":
+                    if cur["noise"] is None:
+                        continue               # the drivers rank solutions by sum capacity, which needs a noise variance
+                    drv = ALG.GreedStreamIASolver(solver) if op["how"] == "greedy" else ALG.BruteForceStreamIASolver(solver)
+                    ns_max = [min(x, 2) for x in cur["Ns"]] if op["how"] == "brute" else list(cur["Ns"])
+                    m["handed_P"] = None
+                    drv.solve(np.array(ns_max), py_P(op["P"]))
+                    solver.initialize_with = plan["init"]       # the drivers leave 'fix' / 'svd' behind; the caller sets its own mode again
+                    set_model_P(op["P"])
+                    m["F_def"] = m["W_def"] = True
+                    m["aligned"] = True
+                    m["F_from_solve"] = True
+                    m["cost_ok"] = False
+                    got_ns = [int(x) for x in solver.Ns]
+                    if got_ns != cur["Ns"]:
+                        bump(res["probes"], "stream_search_reduced_streams")
+                    cur["Ns"] = got_ns
+                    m["last_setter"] = "stream_search_" + op["how"]
+                    solves += 1
+                    bump(res["probes"], "stream_search_" + op["how"])
                 elif o == "randomizeF":
                     pp = py_P(op["P"])
                     m["handed_P"] = pp if isinstance(pp, np.ndarray) else None
@@ -338,12 +362,18 @@ def execute(plan):
                         set_model_P(newP)
                     full = [Fs[k] * np.sqrt(m["P"][k]) for k in range(K)]
                     kw = {}
+                    # documented: "np.ndarray | list[np.ndarray]"; every third call hands plain lists
+                    wrap_ = list if op["seed"] % 3 == 0 else as_obj_array
+                    if wrap_ is list:
+                        bump(res["probes"], "precoders_given_as_lists")
                     if op["how"] in ("F", "both"):
-                        kw["F"] = as_obj_array(Fs)
+                        kw["F"] = wrap_(Fs)
                     if op["how"] in ("full_F", "both"):
-                        kw["full_F"] = as_obj_array(full)
+                        kw["full_F"] = wrap_(full)
                     if newP is not None:
-                        kw["P"] = np.array(m["P"])
+                        # the power in the form the plan has it (scalar, list) half of the time, as an array otherwise
+                        kw["P"] = (list(newP) if isinstance(newP, list) else newP) if op["seed"] % 2 == 0 else np.array(m["P"])
+                        m["handed_P"] = kw["P"] if isinstance(kw["P"], np.ndarray) else None
                     solver.set_precoders(**kw)
                     m["F_def"] = True
                     m["aligned"] = False
@@ -353,10 +383,11 @@ def execute(plan):
                 elif o == "set_receive_filters":
                     rs = np.random.RandomState(op["seed"])
                     Ws = [cmat(rs, Nr[k], cur["Ns"][k]) for k in range(K)]
+                    wrap_ = list if op["seed"] % 3 == 0 else as_obj_array
                     if op["how"] == "W":
-                        solver.set_receive_filters(W=as_obj_array(Ws))
+                        solver.set_receive_filters(W=wrap_(Ws))
                     else:
-                        solver.set_receive_filters(W_H=as_obj_array([w.conj().T for w in Ws]))
+                        solver.set_receive_filters(W_H=wrap_([w.conj().T for w in Ws]))
                     m["W_def"] = True
                     m["aligned"] = False
                     m["last_setter"] = "set_receive_filters"
